@@ -10,6 +10,7 @@
 
 #include "Compiler/include/gen.hpp"
 #include "VM/include/instr.hpp"
+#include "VM/include/verif_hook.hpp"
 
 using namespace Theo;
 
@@ -477,6 +478,7 @@ void dispatchAssign(GenState &gs, Node *c) {
 
 // dispatch an AST node that corresponds to a <element> in the source
 void dispatchVoid(GenState &gs, Node *c) {
+  THEO_VERIF_POINT(GEN_NODE, c == NULL ? -1 : (int)c->t, 0);
   if (c == NULL) return;
 
   gs.advanceLine(c->line, c->file);
